@@ -131,6 +131,17 @@ func run(sc *Scenario, tr *Trace) {
 			}
 		case "restart":
 			var sil, nfl []byte
+			in.snapMtx.Lock()
+			snapAt := in.silSnapAt
+			in.snapMtx.Unlock()
+			switch st.Restart {
+			case "clean":
+				snapAt = now
+			case "stale":
+			default:
+				snapAt = time.Time{}
+			}
+			tr.RestartSilSnap = append(tr.RestartSilSnap, snapAt)
 			switch st.Restart {
 			case "clean":
 				sil, nfl = in.stop(true)
@@ -145,6 +156,11 @@ func run(sc *Scenario, tr *Trace) {
 				s.errf("restart: %v", err)
 				return
 			}
+			nin.snapMtx.Lock()
+			if nin.silSnapAt.IsZero() { // no maintenance run of its own yet: it holds what it started from
+				nin.silSnapAt = snapAt
+			}
+			nin.snapMtx.Unlock()
 			s.insts[0] = nin
 		case "get-alerts":
 			synctest.Wait()
